@@ -235,10 +235,19 @@ def check(ctx):
     # kernel-state dataclasses restart dual averaging on construction
     n_states = 0
     for q, ci in sorted(repo.classes.items()):
-        pi = ci.own_method("__post_init__")
-        if pi is None or not q.startswith("liesel.goose."):
+        # (only the classes that carry the dual-averaging fields: some other data class
+        # growing a __post_init__ is none of this property's business)
+        if not q.startswith("liesel.goose.") or not (
+                {"error_sum", "log_avg_step_size", "mu"} & set(ci.annotated_fields())) \
+                or any("Protocol" in str(b) for b in ci.base_names):
             continue
+        pi = ci.own_method("__post_init__")
         n_states += 1
+        if pi is None:
+            ctx.ob("C11.R3", ci, "a kernel state with dual-averaging fields initialises them "
+                                 "on construction (__post_init__ calls da_init(self))", False,
+                   stmt=f"{ci.name} has no __post_init__")
+            continue
         r = evaluate(repo, pi)
         cs = [t for t, _, cond in r.calls if is_call(t, f"{DA}.da_init") and not cond]
         ctx.ob("C11.R3", pi, "a new kernel state initialises dual averaging (da_init(self))",
